@@ -11,7 +11,7 @@ export GOFLAGS=-mod=mod GOPROXY=off GOSUMDB=off GOTOOLCHAIN=local
 for p in $props; do
   (cd $base/verif && VERIF_COVER=1 GOCOVERDIR=$base/cov timeout 3000 ./check $p > $base/$p.out 2>&1; echo "$p exit=$?")
 done
-cd /repo && go tool covdata textfmt -i=$base/cov -o=$base/cover.txt && go tool cover -func=$base/cover.txt > $base/func.txt
+cd /repo && go tool covdata textfmt -i=$base/cov -o=$base/cover0.txt && grep -v "^verifharness" $base/cover0.txt > $base/cover.txt && go tool cover -func=$base/cover.txt > $base/func.txt
 tail -1 $base/func.txt
 grep -v "100.0%" $base/func.txt | sort -t$'\t' -k3 -n | awk '{print $NF, $1, $2}' | sort -n | head -${COVN:-80}
 rm -rf $base/verif $base/cov
